@@ -7,7 +7,8 @@
      refines the abstract operators, string round trip, and (HashDesign = "derived") equal styles
      carry equal hash keys.  With HashDesign = "stored" (the 9.10.0 transcription) TLC refutes
      HashConsistent - that run is informational.
-   M2: with CONSTRAINT Emit and no VIEW every route is printed as JSON for replay on the real code. *)
+   M2: with CONSTRAINT Emit and no VIEW every route is printed as JSON for replay on the real code;
+       RouteSpecAll with CONSTRAINT EmitFull under -simulate gives long routes over every public route kind. *)
 EXTENDS Style, Json
 
 CONSTANTS NCol,        \* how many of the colours below are in the domain (besides Unset)
@@ -121,9 +122,30 @@ WithoutColorOp == \E i \in 1..N :
 \* str(pool[i]) caches the definition inside the object; the value is unchanged (the entry is aliased)
 StrOp      == \E i \in 1..N : Room /\ Push(pool[i], [k |-> "str", i |-> i])
 
+\* ---- further public routes (audit 2).  They are kept out of RouteNext so that the exhaustive M2 enumeration
+\* stays the size it was; RouteNextAll (M1 design refinement, M2 -simulate of long routes) has them all.
+\* Style.null(): the shared null style
+NullOp     == Room /\ Push(Entry(INull, Null), [k |-> "null"])
+\* hash(pool[i]) caches the hash inside the object BEFORE later derivations; the value is unchanged (aliased)
+HashOp     == \E i \in 1..N : Room /\ Push(pool[i], [k |-> "hash", i |-> i])
+\* pool[i] + None  and  Style.pick_first(None, pool[i], pool[j])  return the operand itself
+AddNoneOp  == \E i \in 1..N : Room /\ Push(pool[i], [k |-> "addnone", i |-> i])
+PickFirstOp == \E i, j \in 1..N : Room /\ Push(pool[i], [k |-> "pick", i |-> i, j |-> j])
+BgStyleOp  == \E i \in 1..N : Room /\ Push(Entry(IBackgroundStyle(pool[i].impl), BackgroundStyle(pool[i].abs)), [k |-> "bgstyle", i |-> i])
+\* combine / chain of a single style, and of many (the whole pool twice over)
+Twice      == [i \in 1..(2 * N) |-> ((i - 1) % N) + 1]
+IxShapes   == {<<i>> : i \in 1..N} \cup (IF N >= 1 THEN {Twice} ELSE {})
+PoolAt(ix) == [n \in 1..Len(ix) |-> pool[ix[n]]]
+ChainIxOp  == \E ix \in IxShapes : Room /\ Push(Entry(ICombine(HashDesign, Impls(PoolAt(ix))), Combine(Abss(PoolAt(ix)))),
+                                                 [k |-> "chain", ix |-> ix])
+CombineIxOp == \E ix \in IxShapes : Room /\ Push(Entry(ICombine(HashDesign, Impls(PoolAt(ix))), Combine(Abss(PoolAt(ix)))),
+                                                  [k |-> "combine", ix |-> ix])
+
 RouteNext == FromKwargs \/ ParseDef \/ NormParse \/ FromColorOp \/ AddOp \/ ChainOp \/ CombineOp
              \/ CopyOp \/ UpdateLinkOp \/ WithoutColorOp \/ StrOp
 RouteSpec == RouteInit /\ [][RouteNext]_vars
+RouteNextAll == RouteNext \/ NullOp \/ HashOp \/ AddNoneOp \/ PickFirstOp \/ BgStyleOp \/ ChainIxOp \/ CombineIxOp
+RouteSpecAll == RouteInit /\ [][RouteNextAll]_vars
 
 TypeOK         == \A i \in 1..N : pool[i].abs \in Styles
 Refines        == \A i \in 1..N : Abs(pool[i].impl) = pool[i].abs
@@ -137,4 +159,5 @@ HashExact      == HashDesign = "derived" =>
 
 View == pool
 Emit == Len(hist) >= 1 => PrintT(ToJson([beh |-> hist, val |-> pool[N].abs]))
+EmitFull == Len(hist) = GenDepth => PrintT(ToJson([beh |-> hist, val |-> pool[N].abs]))      \* -simulate: whole routes only
 =============================================================================
